@@ -353,6 +353,11 @@ def c20_g4(repo, res, rule="G4"):
         (G, "BaseGeo.style", True, dict(self=O({"A:self"}), val=O({"P:val"})), False),
         (C, "BaseCollection.set_children_styles", False, dict(self=O({"A:self"}), arg=O({"P:arg"}), opacity=O({"P:opacity"})), False),
         (D, "MagicProperties.update", False, dict(self=O({"A:self"}), arg=O({"P:arg"}), color=O({"P:color"})), False),
+        # the notation helpers receive dicts whose nested values are still the caller's (dict.copy / {**d} copy one level): they
+        # must not modify what they are given
+        (D, "magic_to_dict", False, dict(kwargs=O({"P:kwargs"}), separator=Const("_")), False),
+        (D, "update_nested_dict", False, dict(d=O({"P:d"}), u=O({"P:u"}), same_keys_only=Const(False), replace_None_only=Const(False)), False),
+        (D, "linearize_dict", False, dict(kwargs=O({"P:kwargs"}), separator=Const(".")), False),
         # show() linearises nested `style=` dicts before they reach get_style, so only flat style_* keywords arrive here
         (S, "get_style", False, dict(obj=O({"A:obj"}), default_settings=O({"A:default_settings"}), style_color=O({"P:style_color"})), False),
     ]
